@@ -87,6 +87,23 @@ type Net struct {
 	St        Stats
 	// DialHook, if set, may veto a dial (fault injection); called under the token.
 	DialHook func(addr string) error
+	// DialLog records every dial attempt: fake time since epoch (ns) and whether it connected.
+	DialLog []DialAttempt
+}
+
+// DialAttempt is one recorded dial.
+type DialAttempt struct {
+	At   time.Time
+	Addr string
+	OK   bool
+	Step int // scheduler step at which the attempt was made
+}
+
+func curStep() int {
+	if s := simrt.Active(); s != nil {
+		return s.Stats.Steps
+	}
+	return 0
 }
 
 // New creates a network.
@@ -503,19 +520,23 @@ func (n *Net) Dial(addr string) (net.Conn, error) {
 	if n.DialHook != nil {
 		if err := n.DialHook(addr); err != nil {
 			n.Fault("dial_hook_reject")
+			n.DialLog = append(n.DialLog, DialAttempt{time.Now(), addr, false, curStep()})
 			return nil, &net.OpError{Op: "dial", Net: "tcp", Err: err}
 		}
 	}
 	l := n.listeners[addr]
 	if l == nil || l.closed || l.Down {
 		n.Fault("dial_refuse")
+		n.DialLog = append(n.DialLog, DialAttempt{time.Now(), addr, false, curStep()})
 		return nil, &net.OpError{Op: "dial", Net: "tcp", Err: ErrRefused}
 	}
 	if l.Refuse > 0 {
 		l.Refuse--
 		n.Fault("dial_refuse")
+		n.DialLog = append(n.DialLog, DialAttempt{time.Now(), addr, false, curStep()})
 		return nil, &net.OpError{Op: "dial", Net: "tcp", Err: ErrRefused}
 	}
+	n.DialLog = append(n.DialLog, DialAttempt{time.Now(), addr, true, curStep()})
 	n.nextHost++
 	h := n.nextHost
 	ca := Addr{fmt.Sprintf("10.0.%d.%d:%d", h/250, h%250+1, 40000+h)}
